@@ -1,5 +1,17 @@
 """C13 — substitution replaces exactly the free occurrences of its keys.
 
+P (fold schema; DagWalker.walk computes the fold -- C14): for every operator kind, the handler the real Substituter dispatches it to
+(walk_replace_or_identity, with IdentityDagWalker.super and the IdentityDagWalker.walk_<kind> it selects inlined from /repo's source,
+ExpressionManager constructors by their C16 contracts) is verified against
+  * syntactic clause: the result is subs[e] when e is a key -- whatever the children's results are, so nothing is substituted inside a
+    replaced occurrence and inserted values are never walked again -- and otherwise the node rebuilt from the children's results
+    (for a leaf that is not a key: the very same node, by hash-consing);
+  * semantic corollary for the Boolean / arithmetic operators and leaves: with ev' the evaluation under the interpretation updated by
+    the map (ev'(k) = ev(subs[k]) for a leaf key k, unchanged on other leaves, the operators' own equations elsewhere),
+    children: ev(args[j]) = ev'(arg_j(e))  =>  ev(result) = ev'(e)      (compound keys: no semantic claim, as in DESIGN.md C13).
+Substituter.substitute: the compatibility loop is proved to raise UPTypeError before the walk is entered and without writing any
+field of the walker (frame), and otherwise to call walk exactly once with the promoted map.
+
 B: random expressions and random type-compatible substitution maps (keys: fluent expressions, variables, parameters,
 compound sub-expressions): the real Substituter's result equals an independent top-down reference substitution
 (maximal occurrences first, no re-substitution, keys mentioning a variable bound by an enclosing quantifier are skipped
@@ -9,8 +21,7 @@ rejected with UPTypeError and a following unrelated substitution is unaffected.
 import warnings
 from unified_planning.model.operators import OperatorKind as OK
 
-UNITS = []
-USES_THEORY = False
+USES_THEORY = True
 
 
 def ref_subst(env, e, subs):
@@ -122,5 +133,443 @@ def bounded(tier, seed):
                     f"non-trivial = expression changed by the substitution", "samples": samples, "bound": f"{n} expressions"}
 
 
-LEVEL = "exploration"
+
+
+# ======================================================================================================= proved layer
+import z3
+from pyvc.values import SUnion, Ref, Seq, Map, SBool, SRef, SSeq, SMap, Rec, CList, CDict, Loc, ExcVal, fresh_name, zbool, zint, Unsupported, SEnum
+from pyvc.verify import Unit
+from pyvc.engine import LoopSpec
+from pyvc import builtins as B
+from . import theory as T
+from .theory import evb, evn, evo, is_numeric, args_arr, args_len, node_type, OKT
+import unified_planning.model.walkers.substituter as _sub
+import unified_planning.model.walkers.identitydag as _idw
+from unified_planning.model.walkers.generic import nt_to_fun
+from unified_planning.exceptions import UPTypeError as _UPTypeError
+
+_F = T.FNode.z3sort()
+_ARR = z3.ArraySort(z3.IntSort(), _F)
+# evaluation under the interpretation updated by the substitution map
+evb_s = z3.Function("evb_sub", _F, z3.BoolSort())
+evn_s = z3.Function("evn_sub", _F, z3.RealSort())
+evo_s = z3.Function("evo_sub", _F, T.Object.z3sort())
+ssum_s = z3.Function("ssum_sub", _ARR, z3.IntSort(), z3.RealSort())
+sprod_s = z3.Function("sprod_sub", _ARR, z3.IntSort(), z3.RealSort())
+LEAVES = (OK.BOOL_CONSTANT, OK.INT_CONSTANT, OK.REAL_CONSTANT, OK.PARAM_EXP, OK.VARIABLE_EXP, OK.OBJECT_EXP)
+# hash-consing (C16): a leaf constructor applied to the payload of an existing leaf returns that very node
+_mk_leaf = {OK.PARAM_EXP: ("ParameterExp", T.Parameter), OK.VARIABLE_EXP: ("VariableExp", T.Variable), OK.OBJECT_EXP: ("ObjectExp", T.Object)}
+
+
+def _leaf_ctor(kind):
+    nm, ref = _mk_leaf[kind]
+    f = z3.Function(f"mk.{nm}", ref.z3sort(), _F)
+
+    def m(eng, st, selfv, args, kw):
+        r = f(args[0].z)
+        T.assume_node(eng, st, r, kind)
+        st.assume(args_len(r) == 0, B._uf(f"FNode.payload.{kind.name}", _F, ref.z3sort())(r) == args[0].z)
+        yield st, T.FNode.wrap(r)
+    return nm, m, f
+
+
+def same_value_s(r, e):
+    """ev(r) == ev'(e)"""
+    return z3.And(evb(r) == evb_s(e), evn(r) == evn_s(e), evo(r) == evo_s(e))
+
+
+def sem_s(e, kind):
+    """defining equation of ev' at a node of kind `kind` that is NOT a key (the operators' own equations; leaves unchanged)"""
+    j = z3.Int(fresh_name("j"))
+    arr, n = args_arr(e), args_len(e)
+    a0, a1 = z3.Select(arr, 0), z3.Select(arr, 1)
+    if kind == OK.AND:
+        return evb_s(e) == z3.ForAll([j], z3.Implies(z3.And(0 <= j, j < n), evb_s(z3.Select(arr, j))))
+    if kind == OK.OR:
+        return evb_s(e) == z3.Exists([j], z3.And(0 <= j, j < n, evb_s(z3.Select(arr, j))))
+    if kind == OK.NOT:
+        return evb_s(e) == z3.Not(evb_s(a0))
+    if kind == OK.IMPLIES:
+        return evb_s(e) == z3.Implies(evb_s(a0), evb_s(a1))
+    if kind == OK.IFF:
+        return evb_s(e) == (evb_s(a0) == evb_s(a1))
+    if kind == OK.LE:
+        return evb_s(e) == (evn_s(a0) <= evn_s(a1))
+    if kind == OK.LT:
+        return evb_s(e) == (evn_s(a0) < evn_s(a1))
+    if kind == OK.EQUALS:
+        return evb_s(e) == z3.If(z3.And(is_numeric(a0), is_numeric(a1)), evn_s(a0) == evn_s(a1),
+                                 z3.If(z3.Or(is_numeric(a0), is_numeric(a1)), z3.BoolVal(False), evo_s(a0) == evo_s(a1)))
+    if kind == OK.PLUS:
+        return evn_s(e) == ssum_s(arr, n)
+    if kind == OK.TIMES:
+        return evn_s(e) == sprod_s(arr, n)
+    if kind == OK.MINUS:
+        return evn_s(e) == evn_s(a0) - evn_s(a1)
+    if kind == OK.DIV:
+        return z3.Implies(evn_s(a1) != 0, evn_s(e) == evn_s(a0) / evn_s(a1))
+    if kind in LEAVES:
+        return z3.And(evb_s(e) == evb(e), evn_s(e) == evn(e), evo_s(e) == evo(e))
+    return z3.BoolVal(True)
+
+
+def fold_s_axioms():
+    a, b = z3.Const("a!s", _ARR), z3.Const("b!s", _ARR)
+    n, m = z3.Int("n!s"), z3.Int("m!s")
+    same = z3.ForAll([m], z3.Implies(z3.And(0 <= m, m < n), evn(z3.Select(a, m)) == evn_s(z3.Select(b, m))))
+    return [z3.ForAll([a], ssum_s(a, 0) == 0),
+            z3.ForAll([a, n], z3.Implies(n > 0, ssum_s(a, n) == ssum_s(a, n - 1) + evn_s(z3.Select(a, n - 1))), patterns=[ssum_s(a, n)]),
+            z3.ForAll([a], sprod_s(a, 0) == 1),
+            z3.ForAll([a, n], z3.Implies(n > 0, sprod_s(a, n) == sprod_s(a, n - 1) * evn_s(z3.Select(a, n - 1))), patterns=[sprod_s(a, n)]),
+            # congruence of the folds in the values (induction on n; same lemma as theory.prefix_lemmas, across the two evaluations)
+            z3.ForAll([a, b, n], z3.Implies(z3.And(n >= 0, same), T.ssum(a, n) == ssum_s(b, n)), patterns=[z3.MultiPattern(T.ssum(a, n), ssum_s(b, n))]),
+            z3.ForAll([a, b, n], z3.Implies(z3.And(n >= 0, same), T.sprod(a, n) == sprod_s(b, n)), patterns=[z3.MultiPattern(T.sprod(a, n), sprod_s(b, n))])]
+
+
+SEM_KINDS = (OK.AND, OK.OR, OK.NOT, OK.IMPLIES, OK.IFF, OK.LE, OK.LT, OK.EQUALS, OK.PLUS, OK.MINUS, OK.TIMES, OK.DIV) + LEAVES
+
+
+class ReplaceOrIdentity(Unit):
+    prop = "C13"
+
+    def __init__(self, kind):
+        self.kind = kind
+        self.fn = getattr(_sub.Substituter, nt_to_fun(kind))          # walk_replace_or_identity for every kind (read reflectively)
+        self.rebuild = getattr(_idw.IdentityDagWalker, nt_to_fun(kind))
+        self.name = f"Substituter[{kind.name}] -> {self.fn.__name__} / {self.rebuild.__name__}"
+        self.doc = "key => its value, whatever the children's results; otherwise the node rebuilt from the children's results; ev(result) == ev'(e)"
+
+    def target(self):
+        return self.fn
+
+    def configure(self, eng):
+        eng.axioms += T.semantic_axioms() + T.fold_axioms() + T.prefix_lemmas() + fold_s_axioms()
+        for k in _mk_leaf:
+            nm, m, f = _leaf_ctor(k)
+            T.Manager.methods[nm] = m
+            ref = _mk_leaf[k][1]
+            x = z3.Const("x!hc", _F)
+            pay = B._uf(f"FNode.payload.{k.name}", _F, ref.z3sort())
+            eng.axioms.append(z3.ForAll([x], z3.Implies(node_type(x) == OKT.consts[k], f(pay(x)) == x), patterns=[pay(x)]))
+        # constants: Bool / Int / Real of an existing constant's payload is that constant (hash-consing, C16)
+        x = z3.Const("x!hc2", _F)
+        eng.axioms += [z3.ForAll([x], z3.Implies(node_type(x) == OKT.consts[OK.BOOL_CONSTANT], T._mkbool(B._uf("FNode.payload.BOOL_CONSTANT", _F, z3.BoolSort())(x)) == x), patterns=[node_type(x)]),
+                       z3.ForAll([x], z3.Implies(node_type(x) == OKT.consts[OK.INT_CONSTANT], T._mkint(B._uf("FNode.payload.INT_CONSTANT", _F, z3.IntSort())(x)) == x), patterns=[node_type(x)]),
+                       z3.ForAll([x], z3.Implies(node_type(x) == OKT.consts[OK.REAL_CONSTANT], T._mkreal(B._uf("FNode.payload.REAL_CONSTANT", _F, z3.RealSort())(x)) == x), patterns=[node_type(x)])]
+        kind = self.kind
+        orig = T.FNode.attrs.get("node_type")
+
+        def node_type_attr(e_, st, x_):
+            # the unit fixes node_type(expression) == kind in its precondition: reading it back gives the concrete member,
+            # so that Walker.super's getattr(cls, nt_to_fun(...)) dispatch is executed as written
+            if hasattr(self, "_ez") and z3.eq(x_.z, self._ez):
+                return kind
+            return SEnum(OKT, node_type(x_.z))
+        T.FNode.attrs["node_type"] = node_type_attr
+
+    def setup(self, eng, st):
+        mgr = T.Manager.fresh("manager")
+        w = st.alloc(Rec(_sub.Substituter, {"manager": mgr, "environment": T.Environment.fresh("env")}), "Substituter")
+        e = T.FNode.fresh("expression")
+        self._ez = e.z
+        T.assume_node(eng, st, e.z, self.kind)
+        subs = eng.fresh_of(st, Map(T.FNode, T.FNode), "subs")
+        iskey = z3.Select(subs.has, e.z)
+        if self.kind in T.ARITY or self.kind in LEAVES:
+            n = T.ARITY.get(self.kind, 0)
+            items = [T.FNode.fresh(f"arg{j}") for j in range(n)]
+            args = st.alloc(CList(items), "list")
+            seq = SSeq.of(T.FNode, items)
+        else:
+            seq = eng.fresh_of(st, Seq(T.FNode), "args")
+            st.assume(seq.n == args_len(e.z))
+            args = st.alloc(seq, "list")
+        j = z3.Int(fresh_name("j"))
+        # children: the result of child j has, under the original interpretation, the value of child j under the updated one
+        st.assume(z3.ForAll([j], z3.Implies(z3.And(0 <= j, j < seq.n), z3.And(same_value_s(z3.Select(seq.arr, j), z3.Select(args_arr(e.z), j)),
+                                                                           is_numeric(z3.Select(seq.arr, j)) == is_numeric(z3.Select(args_arr(e.z), j)))),
+                            patterns=[z3.Select(seq.arr, j)]))
+        # the updated interpretation: a leaf key takes the value of its image; everything else follows its own equation
+        st.assume(z3.Implies(z3.And(iskey, z3.BoolVal(self.kind in LEAVES)), same_value_s(z3.Select(subs.val, e.z), e.z)))
+        st.assume(z3.Implies(z3.Not(iskey), sem_s(e.z, self.kind)))
+        if self.kind == OK.DIV:
+            st.assume(evn_s(z3.Select(args_arr(e.z), 1)) != 0, evn(z3.Select(seq.arr, 1)) != 0)
+        return [w, e, args], {"subs": st.alloc(subs, "dict")}, dict(e=e, seq=seq, subs=subs)
+
+    def post(self, eng, ctx, st, out):
+        if out[0] != "return":
+            return
+        r, e, seq, subs = out[1], ctx["e"], ctx["seq"], ctx["subs"]
+        if isinstance(r, SUnion):
+            r = r.some()          # `res = subs.get(...); if res is not None: return res`: the path condition holds the guard
+        iskey = z3.Select(subs.has, e.z)
+        st.oblige("a key is replaced by its value (children ignored)", z3.Implies(iskey, r.z == z3.Select(subs.val, e.z)))
+        k = self.kind
+        C = OKT.consts
+        if k in LEAVES:
+            st.oblige("a leaf that is not a key is returned unchanged", z3.Implies(z3.Not(iskey), r.z == e.z))
+        elif k in T.ARITY:
+            same_args = z3.And([z3.Select(args_arr(r.z), j) == z3.Select(seq.arr, j) for j in range(T.ARITY[k])])
+            notnot = z3.And(k == OK.NOT, node_type(z3.Select(seq.arr, 0)) == C[OK.NOT]) if k == OK.NOT else z3.BoolVal(False)
+            st.oblige("otherwise the same operator applied to the children's results",
+                      z3.Implies(z3.Not(iskey), z3.Or(z3.And(node_type(r.z) == C[k], args_len(r.z) == T.ARITY[k], same_args),
+                                                      z3.And(notnot, r.z == z3.Select(args_arr(z3.Select(seq.arr, 0)), 0)))))
+        else:
+            j = z3.Int(fresh_name("j"))
+            st.oblige("otherwise the same operator applied to the children's results (0 / 1 arguments normalised by the constructor)",
+                      z3.Implies(z3.And(z3.Not(iskey), seq.n >= 2),
+                                 z3.And(node_type(r.z) == C[k], args_len(r.z) == seq.n,
+                                        z3.ForAll([j], z3.Implies(z3.And(0 <= j, j < seq.n), z3.Select(args_arr(r.z), j) == z3.Select(seq.arr, j))))))
+        if k in SEM_KINDS:
+            guard = z3.Or(z3.Not(iskey), z3.BoolVal(k in LEAVES))
+            if k in (OK.AND, OK.OR, OK.NOT, OK.IMPLIES, OK.IFF, OK.LE, OK.LT, OK.EQUALS, OK.BOOL_CONSTANT):
+                st.oblige("ev(result) == ev'(e)  [truth value]", z3.Implies(guard, evb(r.z) == evb_s(e.z)))
+            elif k in (OK.PLUS, OK.MINUS, OK.TIMES, OK.DIV, OK.INT_CONSTANT, OK.REAL_CONSTANT):
+                st.oblige("ev(result) == ev'(e)  [numeric value]", z3.Implies(guard, evn(r.z) == evn_s(e.z)))
+            else:
+                st.oblige("ev(result) == ev'(e)", z3.Implies(guard, same_value_s(r.z, e.z)))
+
+
+_walk_calls = "walk_calls"
+
+
+class SubstituteEntry(Unit):
+    prop = "C13"
+    name = "Substituter.substitute"
+    doc = "an incompatible pair raises UPTypeError before walk is entered and without touching the walker; otherwise walk is called once with the (promoted) map"
+    allowed_raises = (_UPTypeError,)
+
+    def target(self):
+        return _sub.Substituter.substitute
+
+    def configure(self, eng):
+        def auto_promote(eng_, st, selfv, args, kw):
+            yield st, st.alloc(CList(list(args)), "list")      # FNode arguments are returned as they are (expression.py auto_promote)
+        T.Manager.methods["auto_promote"] = auto_promote
+
+        def walk(eng_, st, args, kw):
+            st.ghost[_walk_calls] = st.ghost.get(_walk_calls, 0) + 1
+            st.ghost["walk_args"] = (args[1], eng_.deref(st, kw["subs"]))
+            yield st, T.FNode.fresh("walk_result")
+        from unified_planning.model.walkers.dag import DagWalker
+        eng.contracts[DagWalker.walk] = walk
+        ty = B._uf("FNode.type", _F, T.Type.z3sort())
+        comp = B._uf("Type.is_compatible()", T.Type.z3sort(), T.Type.z3sort(), z3.BoolSort())
+
+        def inv(L):
+            S = L._pre.field(L._pre.self, "__subs__") if False else self._S
+            new = L.new_substitutions
+            i = zint(L._i)
+            k = z3.Const(fresh_name("k"), _F)
+            j = z3.Int(fresh_name("j"))
+            if isinstance(new, (B.PendingEmpty, CDict)):
+                has = lambda kk: z3.BoolVal(False)      # noqa: E731
+                val = None
+            else:
+                has = lambda kk: z3.Select(new.has, kk)  # noqa: E731
+                val = new.val
+            out = [("new map == the scanned prefix of the given map",
+                    z3.ForAll([k], z3.And(has(k) == z3.And(z3.Select(S.has, k), z3.Select(S.idx, k) < i),
+                                          z3.Implies(has(k), (z3.Select(val, k) if val is not None else z3.Select(S.val, k)) == z3.Select(S.val, k))))),
+                   ("every scanned pair is type compatible",
+                    z3.ForAll([j], z3.Implies(z3.And(0 <= j, j < i), comp(ty(z3.Select(S.keys.arr, j)), ty(z3.Select(S.val, z3.Select(S.keys.arr, j)))))))]
+            return out
+        eng.loops[("unified_planning.model.walkers.substituter.Substituter.substitute", 0)] = LoopSpec(
+            inv, modifies=["k", "v", "new_k", "new_v", "new_substitutions"], types={"new_substitutions": Map(T.FNode, T.FNode, ordered=True)})
+
+    def setup(self, eng, st):
+        mgr = T.Manager.fresh("manager")
+        w = st.alloc(Rec(_sub.Substituter, {"manager": mgr, "environment": T.Environment.fresh("env"), "stack": st.alloc(CList([]), "list"),
+                                            "memoization": st.alloc(CDict({}), "dict")}), "Substituter")
+        e = T.FNode.fresh("expression")
+        S = eng.fresh_of(st, Map(T.FNode, T.FNode, ordered=True), "substitutions")
+        self._S = S
+        self._w0 = dict(st.load(w).fields)
+        return [w, e, st.alloc(S, "dict")], {}, dict(e=e, S=S, w=w)
+
+    def post(self, eng, ctx, st, out):
+        S, e = ctx["S"], ctx["e"]
+        ty = B._uf("FNode.type", _F, T.Type.z3sort())
+        comp = B._uf("Type.is_compatible()", T.Type.z3sort(), T.Type.z3sort(), z3.BoolSort())
+        j = z3.Int(fresh_name("j"))
+        all_ok = z3.ForAll([j], z3.Implies(z3.And(0 <= j, j < S.keys.n), comp(ty(z3.Select(S.keys.arr, j)), ty(z3.Select(S.val, z3.Select(S.keys.arr, j))))))
+        calls = st.ghost.get(_walk_calls, 0)
+        w_now = st.load(ctx["w"]).fields
+        frame = all(w_now[f] is self._w0[f] or (isinstance(w_now[f], Loc) and isinstance(self._w0[f], Loc) and w_now[f].id == self._w0[f].id and True)
+                    for f in self._w0)
+        if out[0] == "raise":
+            st.oblige("rejected only when some pair is incompatible", z3.Not(all_ok))
+            st.oblige("rejected before the walk is entered", z3.BoolVal(calls == 0))
+            st.oblige("no field of the walker was written before the rejection", z3.BoolVal(frame))
+            return
+        if S is not None:
+            empty = S.keys.n == 0
+            if calls == 0:
+                st.oblige("without a walk the expression itself is returned, only for the empty map", z3.And(empty, out[1].z == e.z))
+            else:
+                wa_e, wa_s = st.ghost["walk_args"]
+                k = z3.Const(fresh_name("k"), _F)
+                st.oblige("accepted only when every pair is compatible", all_ok)
+                st.oblige("walk is entered once, on the given expression", z3.And(z3.BoolVal(calls == 1), wa_e.z == e.z))
+                if isinstance(wa_s, SMap):
+                    st.oblige("walk receives exactly the given map", z3.ForAll([k], z3.And(z3.Select(wa_s.has, k) == z3.Select(S.has, k),
+                                                                                  z3.Implies(z3.Select(S.has, k), z3.Select(wa_s.val, k) == z3.Select(S.val, k)))))
+                else:
+                    st.oblige("walk receives exactly the given map", z3.BoolVal(False))
+
+
+FVO13 = Ref("FreeVarsOracle13")
+FVO13.observers["get_free_variables"] = ((T.FNode,), Seq(T.Variable))      # a set in the real code; only membership / iteration is used
+Env13 = Ref("Environment13", fields={"free_vars_oracle": FVO13})
+_mkq = z3.Function("mk.quantifier", OKT.z3sort(), _F, z3.ArraySort(z3.IntSort(), T.Variable.z3sort()), z3.IntSort(), _F)
+
+
+def _quantifier_ctor(kind):
+    def m(eng, st, selfv, args, kw):
+        from pyvc.engine import StarSeq
+        body = args[0]
+        rest = args[1:]
+        if len(rest) == 1 and isinstance(rest[0], StarSeq):
+            vs = rest[0].seq
+        else:
+            vs = SSeq.of(T.Variable, list(rest))
+        for s, zero in eng.branch(st, vs.n == 0, "mk:novars"):
+            if zero:
+                from unified_planning.exceptions import UPExpressionDefinitionError
+                yield s, ExcVal(UPExpressionDefinitionError, (), "Exists/Forall without variables")
+                continue
+            r = _mkq(OKT.consts[kind], body.z, vs.arr, vs.n)
+            s.assume(node_type(r) == OKT.consts[kind], args_len(r) == 1, z3.Select(args_arr(r), 0) == body.z,
+                     B._uf(f"FNode.payload.{kind.name}.len", _F, z3.IntSort())(r) == vs.n)
+            j = z3.Int(fresh_name("j"))
+            parr = B._uf(f"FNode.payload.{kind.name}.arr", _F, z3.ArraySort(z3.IntSort(), T.Variable.z3sort()))(r)
+            s.assume(z3.ForAll([j], z3.Implies(z3.And(0 <= j, j < vs.n), z3.Select(parr, j) == z3.Select(vs.arr, j))))
+            yield s, T.FNode.wrap(r)
+    return m
+
+
+class QuantifierBranch(Unit):
+    """Substituter._push_with_children_to_stack on an Exists / Forall node"""
+    prop = "C13"
+
+    def __init__(self, kind):
+        self.kind = kind
+        self.name = f"Substituter._push_with_children_to_stack[{kind.name}]"
+        self.doc = ("the body is substituted with exactly the keys that mention no variable bound by the quantifier; the memoised result is "
+                    "subs[e] for a key, otherwise the quantifier rebuilt over the substituted body with the same variables; nothing else changes")
+
+    def target(self):
+        return _sub.Substituter._push_with_children_to_stack
+
+    def configure(self, eng):
+        eng.axioms += T.semantic_axioms() + T.fold_axioms()
+        T.Manager.methods["Exists"] = _quantifier_ctor(OK.EXISTS)
+        T.Manager.methods["Forall"] = _quantifier_ctor(OK.FORALL)
+        kind = self.kind
+
+        def node_type_attr(e_, st, x_):
+            if hasattr(self, "_ez") and z3.eq(x_.z, self._ez):
+                return kind
+            return SEnum(OKT, node_type(x_.z))
+        T.FNode.attrs["node_type"] = node_type_attr
+
+        def new_substituter(eng_, st, args, kw):
+            st.ghost["sub_created"] = st.ghost.get("sub_created", 0) + 1
+            yield st, st.alloc(Rec(_sub.Substituter, {"environment": args[0], "fresh_instance": True}), "Substituter")
+        eng.contracts[_sub.Substituter] = new_substituter
+
+        def substitute(eng_, st, args, kw):
+            subw, body, m = args[0], args[1], eng_.deref(st, args[2])
+            st.ghost["substitute_calls"] = st.ghost.get("substitute_calls", 0) + 1
+            st.ghost["substitute_args"] = (subw, body, m)
+            r = T.FNode.fresh("res_expression")
+            st.ghost["res_expression"] = r
+            yield st, r
+        eng.contracts[_sub.Substituter.substitute] = substitute
+        QNP = "unified_planning.model.walkers.substituter.Substituter._push_with_children_to_stack"
+
+        def inv(L):
+            S = self._S
+            new = L.new_subs
+            i = zint(L._i)
+            k = z3.Const(fresh_name("k"), _F)
+            if isinstance(new, (B.PendingEmpty, CDict)):
+                has, val = (lambda kk: z3.BoolVal(False)), None
+            else:
+                has, val = (lambda kk: z3.Select(new.has, kk)), new.val
+            return [("new_subs == the scanned keys that mention no bound variable, with their values",
+                     z3.ForAll([k], z3.And(has(k) == z3.And(z3.Select(S.has, k), z3.Select(S.idx, k) < i, self._keep(L._eng, L.st, k)),
+                                           z3.Implies(has(k), (z3.Select(val, k) if val is not None else z3.Select(S.val, k)) == z3.Select(S.val, k)))))]
+        eng.loops[(QNP, 0)] = LoopSpec(inv, modifies=["k", "v", "new_subs"], types={"new_subs": Map(T.FNode, T.FNode, ordered=True)})
+
+    def _keep(self, eng, st, kz):
+        fv = B.observer_uf(eng, st, self._fvo, "get_free_variables", (T.FNode,), Seq(T.Variable), [T.FNode.wrap(kz)])
+        vs_arr = B._uf(f"FNode.payload.{self.kind.name}.arr", _F, z3.ArraySort(z3.IntSort(), T.Variable.z3sort()))(self._ez)
+        vs_len = B._uf(f"FNode.payload.{self.kind.name}.len", _F, z3.IntSort())(self._ez)
+        a, b = z3.Int(fresh_name("a")), z3.Int(fresh_name("b"))
+        return z3.Not(z3.Exists([a, b], z3.And(0 <= a, a < fv.n, 0 <= b, b < vs_len, z3.Select(fv.arr, a) == z3.Select(vs_arr, b))))
+
+    def setup(self, eng, st):
+        from pyvc.engine import BoundMethod
+        env = Env13.fresh("env")
+        self._fvo = B.field_uf(eng, st, env, "free_vars_oracle")
+        memo = eng.fresh_of(st, Map(T.FNode, T.FNode), "memoization")
+        mloc = st.alloc(memo, "dict")
+        stack = st.alloc(CList([]), "list")
+        w = st.alloc(Rec(_sub.Substituter, {"environment": env, "manager": T.Manager.fresh("manager"), "memoization": mloc, "stack": stack,
+                                            "functions": None}), "Substituter")
+        handler = getattr(_sub.Substituter, nt_to_fun(self.kind))
+        st.setfield(w, "functions", st.alloc(CDict({self.kind: BoundMethod(w, handler)}), "dict"))
+        e = T.FNode.fresh("expression")
+        self._ez = e.z
+        st.assume(node_type(e.z) == OKT.consts[self.kind], args_len(e.z) == 1,
+                  B._uf(f"FNode.payload.{self.kind.name}.len", _F, z3.IntSort())(e.z) >= 1)
+        S = eng.fresh_of(st, Map(T.FNode, T.FNode, ordered=True), "subs")
+        self._S = S
+        return [w, e], {"subs": st.alloc(S, "dict")}, dict(e=e, S=S, w=w, memo0=memo, mloc=mloc, stack=stack)
+
+    def post(self, eng, ctx, st, out):
+        if out[0] != "return":
+            return
+        e, S, memo0 = ctx["e"], ctx["S"], ctx["memo0"]
+        k = z3.Const(fresh_name("k"), _F)
+        calls = st.ghost.get("substitute_calls", 0)
+        st.oblige("the body is substituted exactly once, by a fresh Substituter", z3.BoolVal(calls == 1 and st.ghost.get("sub_created", 0) == 1))
+        if calls != 1:
+            return
+        subw, body, m = st.ghost["substitute_args"]
+        R = st.ghost["res_expression"]
+        st.oblige("... on the quantifier's body", body.z == z3.Select(args_arr(e.z), 0))
+        if isinstance(m, SMap):
+            st.oblige("... with exactly the keys that mention no bound variable (same values)",
+                      z3.ForAll([k], z3.And(z3.Select(m.has, k) == z3.And(z3.Select(S.has, k), self._keep(eng, st, k)),
+                                            z3.Implies(z3.Select(m.has, k), z3.Select(m.val, k) == z3.Select(S.val, k)))))
+        else:
+            st.oblige("... with exactly the keys that mention no bound variable (same values)",
+                      z3.ForAll([k], z3.Not(z3.And(z3.Select(S.has, k), self._keep(eng, st, k)))))
+        memo1 = st.load(ctx["mloc"])
+        iskey = z3.Select(S.has, e.z)
+        res = z3.Select(memo1.val, e.z)
+        varr = B._uf(f"FNode.payload.{self.kind.name}.arr", _F, z3.ArraySort(z3.IntSort(), T.Variable.z3sort()))
+        vlen = B._uf(f"FNode.payload.{self.kind.name}.len", _F, z3.IntSort())
+        j = z3.Int(fresh_name("j"))
+        rebuilt = z3.And(node_type(res) == OKT.consts[self.kind], args_len(res) == 1, z3.Select(args_arr(res), 0) == R.z, vlen(res) == vlen(e.z),
+                         z3.ForAll([j], z3.Implies(z3.And(0 <= j, j < vlen(e.z)), z3.Select(varr(res), j) == z3.Select(varr(e.z), j))))
+        st.oblige("the result is memoised for the node", z3.Select(memo1.has, e.z))
+        st.oblige("a quantifier that is itself a key is replaced by its value", z3.Implies(iskey, res == z3.Select(S.val, e.z)))
+        st.oblige("otherwise it is rebuilt over the substituted body with the same variables", z3.Implies(z3.Not(iskey), rebuilt))
+        st.oblige("no other memo entry changes", z3.ForAll([k], z3.Implies(k != e.z, z3.And(z3.Select(memo1.has, k) == z3.Select(memo0.has, k),
+                                                                                          z3.Select(memo1.val, k) == z3.Select(memo0.val, k)))))
+        stk = st.load(ctx["stack"])
+        st.oblige("nothing is pushed on the stack", z3.BoolVal(isinstance(stk, CList) and len(stk.items) == 0))
+
+
+ROI_KINDS = [OK.AND, OK.OR, OK.NOT, OK.IMPLIES, OK.IFF, OK.LE, OK.LT, OK.EQUALS, OK.PLUS, OK.MINUS, OK.TIMES, OK.DIV,
+             OK.BOOL_CONSTANT, OK.INT_CONSTANT, OK.REAL_CONSTANT, OK.PARAM_EXP, OK.VARIABLE_EXP, OK.OBJECT_EXP]
+UNITS = [ReplaceOrIdentity(k) for k in ROI_KINDS] + [SubstituteEntry()] + [QuantifierBranch(OK.EXISTS), QuantifierBranch(OK.FORALL)]
+LEVEL = "other"
 EXPLANATION = __doc__
+TRUSTED = ["ExpressionManager constructor contracts incl. hash-consing of leaves (C16)", "DagWalker.walk computes the fold of the handlers (C14)",
+           "the semantic corollary is claimed for leaf keys only (compound keys: syntactic clause only)",
+           "FreeVarsOracle.get_free_variables is a pure observer; the recursive substitute call on the body is used by its contract "
+           "(the fold hypothesis); FLUENT_EXP / DOT / temporal kinds: bounded layer only"]
